@@ -16,7 +16,7 @@ import (
 
 func genC04(t *rapid.T) AttackCase {
 	return genAttackCase(t, attackOpts{skipAllowed: true, maxOps: 3,
-		opKinds: []string{"edit-text", "edit-attr", "strip-sig", "move-sig", "swap-sig", "dup-el", "wrap-root", "forge-assertion", "resign", "splice", "id-game", "ref-game", "comment-trick", "rename-el", "encrypt"}})
+		opKinds: []string{"edit-text", "edit-attr", "add-attr", "add-attr", "strip-sig", "move-sig", "swap-sig", "dup-el", "wrap-root", "forge-assertion", "resign", "splice", "id-game", "ref-game", "comment-trick", "rename-el", "encrypt"}})
 }
 
 func checkC04(c AttackCase) h.Outcome {
